@@ -37,12 +37,23 @@ def run(ck):
         "the buffer address enters the SSE2 model only through (address & 15), as in the C source",
         "role policy: theorems are about Model/WsSend.v build_frame (model of sendFrame), tied to the code by the C01 "
         "correspondence run and here by an oracle run on the real client/server protocol objects with pinned keys",
+        "translator translators/mask_opts.py: the masking-option plumbing (defaults, setProtocolOptions per keyword, "
+        "neutrality of other keywords, factory->connection copy) is read off the real factories by evaluation over its "
+        "finite domain; that the factories are deterministic functions of their arguments is assumed",
         "cffi buffer copy in XorMaskerNvx.process and array('B') in the pure-Python maskers are glue covered by the runs only",
     ]
     ck.rule.append("sweep of payload length x start offset x buffer alignment x key x chunk split over the real "
                    "pure-Python (Simple, Shifted1, factory) and freshly compiled NVX (scalar, SSE2 at forced alignment, "
                    "wrapper, factory) maskers, each compared with naive XOR; a sample is re-evaluated by the Gallina "
                    "model in coqc. non-trivial = payload length > 0; distinct = distinct (impl,key,off,align,chunks)")
+    # masking-option plumbing, regenerated from the real factories (fail closed) BEFORE the property file is checked
+    try:
+        r = ck.run_impl(os.path.join(vlib.ROOT, "translators", "mask_opts.py"), {}, timeout=300)
+        vlib.write_if_changed(os.path.join(vlib.COQ, "Gen", "MaskOpts.v"), r["coq"])
+        ck.obligation("translator:mask_opts", True)
+        ck.sample({"mask_options_plumbing": r["values"]})
+    except vlib.DriverCrash as e:
+        ck.obligation("translator:mask_opts", False, str(e)[-1200:])
     broken = ck.coq_props()
     ok, out = vlib.coq_make(["Model/MaskerRun.vo"])
     if not ok:
@@ -94,10 +105,19 @@ def run(ck):
         r = ck.run_impl("role_policy.py", {"framework": fw, "seed": ck.seed, "sizes": sizes})
         ck.evaluations += r["cases"]
         ck.bump(f"role_policy_frames_{fw}", r["frames"])
-        ck.log(f"role policy {fw}: {r['cases']} send sequences, {r['frames']} frames, {len(r['bad'])} violations")
-        for b in r["bad"][:2]:
-            ck.violation(f"role-policy/{b['role']}", f"default-option {b['role']} frames violate the masking policy "
-                         f"(size={b['size']}, fragmentSize={b['fragmentSize']})", dict(b, framework=fw), found_input=True)
+        ck.log(f"role policy {fw}: {r['cases']} send sequences, {r['frames']} frames, {len(r['bad'])} violations; "
+               f"configurations {r['configs']}; send APIs {r['apis']}")
+        ck.sample({"role_policy": fw, "configurations": r["configs"], "send_apis": r["apis"],
+                   "mask_options_on_protocol": r["optvec"]})
+        seen = set()
+        for b in r["bad"]:
+            key = f"role-policy/{b['role']}/{b['api'].split('/')[0]}"
+            if key in seen:
+                continue
+            seen.add(key)
+            ck.violation(key, f"{b['role']} that never set a masking option violates the masking policy: {b['why'][0]} "
+                         f"(configuration {b['config']}, API {b['api']}, size={b['size']})", dict(b, framework=fw),
+                         found_input=True)
     if broken and not mismatches:
         ck.log("proof obligations broken, no failing input found by the sweep")
 
@@ -105,6 +125,14 @@ def run(ck):
 def replay(path):
     r = json.load(open(path))["replay"]
     ck = vlib.Check("C15", "quick", 1)
+    if "api" in r:       # role-policy replay: the same configuration / send API / size on the real protocol objects
+        o = ck.run_impl("role_policy.py", {"framework": r["framework"], "seed": ck.seed, "sizes": [r["size"]], "only": r})
+        print("case:", json.dumps({k: r[k] for k in ("framework", "role", "config", "api", "size")}))
+        for b in o["bad"]:
+            print("implementation violates the masking policy:", "; ".join(b["why"]))
+            print("frames (opcode, masked, key, length):", b["frames"])
+        print("cases run:", o["cases"], "violations:", len(o["bad"]))
+        return 1 if o["bad"] else 0
     mode = "nvx" if r["impl"].startswith("nvx") else "py"
     c = dict(mode=mode, impls=[], lengths=[], offsets=[], aligns=[0], keys=[r["key"]], splits=0, seed="replay",
              samples=0, explicit=[r])
